@@ -15,6 +15,25 @@ LEAKS = [("core::mem", ("forget",)), ("core::mem::manually_drop", ("ManuallyDrop
          ("alloc::sync", ("Arc::into_raw", "Arc::increment_strong_count", "Weak::into_raw")), ("alloc::rc", ("Rc::into_raw",))]
 
 
+def is_take(F, c):
+    """moving a value out of its owner and leaving an empty state behind: Option::take, mem::take / mem::replace, or a private
+    `fn take(&mut self) -> Self` of a state enum that is exactly such a replace of `*self`"""
+    if c.is_("core::option::Option::<T>::take") or c.is_("core::mem::take", "core::mem::replace"):
+        return True
+    if len(c.args) != 1:
+        return False
+    for hb in local_callee_bodies(F, c):
+        if hb.crate != MQ or hb.kind == "Closure" or hb.arg_count != 1 or not hb.locals[1]["ty"].startswith("&mut "):
+            return False
+        inner = [x for x in hb.calls() if x.is_("core::mem::take", "core::mem::replace")]
+        if len(inner) != 1 or len(hb.calls()) != 1 or not hb.must_pass([inner[0].bb]):
+            return False
+        if not any(y[0] == "arg" and y[1] == 1 and not y[2] for y in Prov(hb).operand(inner[0].args[0])):
+            return False
+        return True
+    return False
+
+
 def run(ctx):
     F = ctx.facts("dbg")
     lib = [b for b in F.all_bodies(MQ) if "::test::" not in b.path and "::tests::" not in b.path]
@@ -37,7 +56,7 @@ def run(ctx):
     for b in drops:
         key = fnkey(b)
         pr = Prov(b, adapter_pred=lambda t: (t.get("callee") or {}).get("name") in ("new",) and "RootEntry" in (t.get("callee") or {}).get("def", ""))
-        takes = [c for c in b.calls() if c.is_("core::option::Option::<T>::take") or c.is_("core::mem::take", "core::mem::replace")]
+        takes = [c for c in b.calls() if is_take(F, c)]
         if not is_drop(b) and not takes:
             # split form: the destructor takes the entry and hands it (by value) to this helper, which closes and appends it
             closes = [c for c in b.calls() if c.is_trait_method("CloseValue", "close")]
@@ -54,7 +73,7 @@ def run(ctx):
             for cs in F.callers_of(b.path, crates=[MQ]):
                 d_ = cs.body
                 dk = fnkey(d_)
-                dtakes = [c for c in d_.calls() if c.is_("core::option::Option::<T>::take") or c.is_("core::mem::take", "core::mem::replace")]
+                dtakes = [c for c in d_.calls() if is_take(F, c)]
                 okt, whyt = exactly_once(d_, [c.bb for c in dtakes])
                 ctx.check(okt, "R06.1", dk + "#take-exactly-once", loc(d_), "take is not executed exactly once on every path of the destructor: %s" % whyt)
                 dpr = Prov(d_, adapter_pred=lambda t: (t.get("callee") or {}).get("name") in ("expect", "unwrap"))
@@ -69,11 +88,25 @@ def run(ctx):
         ok, why = exactly_once(b, [c.bb for c in takes])
         ctx.check(ok, "R06.1", key + "#take-exactly-once", loc(b), "take is not executed exactly once on every path of the destructor: %s" % why)
 
+        # a take on a private two-state enum (`EntryState::Open(e)` / `Closed`): the taken value is the full or the empty state
+        state_takes = {}
+        for c_ in takes:
+            if c_.is_("core::option::Option::<T>::take") or c_.dest.get("p"):
+                continue
+            a_ = F.adts.get((b.locals[c_.dest["l"]].get("head") or {}).get("adt") or "")
+            if a_ and a_["crate"] == MQ and len(a_["variants"]) == 2:
+                full_ = [v_["name"] for v_ in a_["variants"] if v_["fields"]]
+                empty_ = [v_["name"] for v_ in a_["variants"] if not v_["fields"]]
+                if len(full_) == 1 and len(empty_) == 1:
+                    state_takes[c_.bb] = (full_[0], empty_[0])
         class S1(Sim):
             def on_call(self_, t, bb, a, env):
                 c = t.get("callee") or {}
                 if c.get("def") == "core::option::Option::<T>::take":
                     return [(("some", 0, 0), {"dest": ("v", "Some")}), (("none", 0, 0), {"dest": ("v", "None")})]
+                if bb in state_takes:
+                    full, empty = state_takes[bb]
+                    return [(("some", 0, 0), {"dest": ("v", full)}), (("none", 0, 0), {"dest": ("v", empty)})]
                 if isinstance(a, tuple) and c.get("name") == "close" and (c.get("trait") or "").endswith("CloseValue"):
                     return [((a[0], a[1] + 1, a[2]), {})]
                 if isinstance(a, tuple) and c.get("name") == "append" and (c.get("trait") or "").endswith("EntrySink"):
